@@ -68,9 +68,21 @@ int main()
         bool same = true;
         for (int d = 0; d < ndim; d++) { dd[d] = dbout->getCoordinate(t, d) - X[i][d]; if (dd[d] != 0.) same = false; }
         if (xvalid && same) continue;
-        double dist = chk->getNormalizedDistance(dd);
+        // distance computed here, independently of the neighbourhood code: rotate (matrix exported
+        // by a checker object built with the same parameters), divide by the coefficients, norm
+        VectorDouble inc = dd;
+        if (!coeffs.empty())
+        {
+          if (!angles.empty())
+          {
+            const VectorDouble& R = chk->getAnisoRotMats();      // inc' = dd . R  (R stored column-major)
+            for (int j = 0; j < ndim; j++) { double sacc = 0.; for (int k = 0; k < ndim; k++) sacc += dd[k] * R[k + ndim * j]; inc[j] = sacc; }
+          }
+          for (int j = 0; j < ndim; j++) inc[j] /= coeffs[j];
+        }
+        double d2acc = 0.; for (int j = 0; j < ndim; j++) d2acc += inc[j] * inc[j];
+        double dist = sqrt(d2acc);
         if (!(dist <= radius)) continue;
-        VectorDouble inc = chk->getIncr();
         int isect = 0;
         if (nsect > 1)
         {
